@@ -628,5 +628,5 @@ const srvRule = "a hand-written scripted server answers a real zcrypto client (c
 func TestPropScriptedServer(t *testing.T) {
 	_ = keys.All
 	kit.Run(t, kit.Spec[SrvCase]{ID: "C32", Name: "scripted-server", Rule: srvRule, Gen: genSrvCase, Check: checkSrvScript,
-		Quick: 1500, Thorough: 9000, Assumptions: commonAssumptions})
+		Quick: 700, Thorough: 6000, Assumptions: commonAssumptions})
 }
